@@ -2242,6 +2242,9 @@ class Client:
             raise ValueError(
                 "The properties argument must be an instance of the Properties class.")
 
+        # A will is published by the broker: its topic must be a valid topic name
+        self._raise_for_invalid_topic(topic.encode('utf-8'))
+
         self._will_payload = _encode_payload(payload)
         self._will = True
         self._will_topic = topic.encode('utf-8')
